@@ -112,8 +112,13 @@ def build(rng):
         t_start = t + (rng.choice((2.0 ** -6, 0.25, 1.0)) + 2.0 ** -12 if how == "later" else 0.0)
         restarts.append(dict(stop=t, rank=rank, how=how, start=t_start, placement=pl))
         t_prev = t_start
+    # the filters are registered before start(), or right after it in the same loop iteration (no await in between, as
+    # tools/find-subscribe.py does): the client has not taken a step yet, so both orders mean the same
+    # (an offer that arrives while nothing is watched is not recorded, so only scenarios without such offers qualify)
+    late_watch = rng.random() < 0.35 and all(e[0] > s0 + 4 * EPS for e in events)
     return dict(window=window, f=f, reps=reps, base=base, find_ttl=find_ttl, filters=filters, s0=s0, rounds=rounds, events=events,
-                pat=tuple(pat) + tuple((r["placement"], r["how"]) for r in restarts), restarts=restarts)
+                pat=tuple(pat) + tuple((r["placement"], r["how"]) for r in restarts) + (("watch-after-start",) if late_watch else ()),
+                restarts=restarts, late_watch=late_watch)
 
 
 def model_rounds(sc):
@@ -174,8 +179,12 @@ def judge(ctx, sc, seed, replay):
         for fl in sc["filters"]:
             prot.discovery.watch_service(C.Service(*fl), listener)
 
-    h.at(0.0, setup)
-    h.at(sc["s0"], prot.discovery.start)
+    if sc.get("late_watch"):
+        h.at(sc["s0"], lambda: (prot.discovery.start(), setup()))
+        ctx.count("filters_registered_right_after_start")
+    else:
+        h.at(0.0, setup)
+        h.at(sc["s0"], prot.discovery.start)
     for e in sc["events"]:
         h.at(e[0], prot.datagram_received, e[6], SOURCES[e[2]], False, rank=e[1])
     for r in sc.get("restarts", ()):
